@@ -537,11 +537,11 @@ Fixpoint replay (fuel : nat) (c : config) (st : state) (pend : list nat) (log : 
     Independent of [step]: a monitor reads the global log in order, counting
     per thread the generator calls, clears, start and end timestamps seen so
     far (and whether the thread has panicked), and checks at every event what
-    the property says (sample size n fixed for the run):
+    the property says (sample size [sz r] in round r):
 
     - a thread takes its (r+1)-th start timestamp only when every thread has
-      cleared its tally r+1 times and made (r+1)*n generator calls, or has
-      panicked;
+      cleared its tally r+1 times and made all the generator calls of rounds
+      0..r, or has panicked;
     - a thread takes a snapshot or drops a value only when every thread has
       taken at least as many end timestamps as itself, or has panicked. *)
 Record mcnt : Type := { m_gen : nat; m_clear : nat; m_start : nat; m_end : nat; m_pan : bool }.
@@ -557,27 +557,32 @@ Definition mon_upd (m : mcnt) (e : evk) : mcnt :=
   | _ => m
   end.
 
+(** Generator calls made in rounds 0 .. k-1, for per-round sample sizes [sz]. *)
+Fixpoint cum (sz : nat -> nat) (k : nat) : nat :=
+  match k with 0 => 0 | S k' => cum sz k' + sz k' end.
+
 (** What must hold when thread (with counters) [m] logs [e]. *)
-Definition mon_ok (n : nat) (ms : list mcnt) (m : mcnt) (e : evk) : bool :=
+Definition mon_ok (sz : nat -> nat) (ms : list mcnt) (m : mcnt) (e : evk) : bool :=
   match e with
   | EStart =>
-    forallb (fun mj => m_pan mj || ((S (m_start m) <=? m_clear mj) && (S (m_start m) * n <=? m_gen mj))) ms
+    forallb (fun mj => m_pan mj || ((S (m_start m) <=? m_clear mj) && (cum sz (S (m_start m)) <=? m_gen mj))) ms
   | ESnap | EDropOut | EDropIn =>
     forallb (fun mj => m_pan mj || (m_end m <=? m_end mj)) ms
   | _ => true
   end.
 
-Fixpoint monitor (n : nat) (ms : list mcnt) (log : list (nat * evk)) : bool :=
+Fixpoint monitor (sz : nat -> nat) (ms : list mcnt) (log : list (nat * evk)) : bool :=
   match log with
   | [] => true
   | (t, e) :: rest =>
     match nth_error ms t with
-    | Some m => mon_ok n ms m e && monitor n (upd t (mon_upd m e) ms) rest
+    | Some m => mon_ok sz ms m e && monitor sz (upd t (mon_upd m e) ms) rest
     | None => false
     end
   end.
 
-Definition log_sb (T n : nat) (log : list (nat * evk)) : bool := monitor n (repeat mcnt0 T) log.
+(** [sz r]: the sample size of round r (constant when sample_size is given, 1, 2, 4, ... while tuning). *)
+Definition log_sb (T : nat) (sz : nat -> nat) (log : list (nat * evk)) : bool := monitor sz (repeat mcnt0 T) log.
 
 (** * The global log of a model execution (what the hooks would record) *)
 
